@@ -79,6 +79,7 @@ type state struct {
 	alloc   *Term
 	defers  []*ssa.Defer
 	dead    bool
+	atLock  *state // snapshot right after the most recent exclusive acquisition of a guarding mutex
 }
 
 type epochAlt struct {
@@ -96,6 +97,7 @@ func (s *state) clone() *state {
 		n.heaps[k] = v
 	}
 	n.epochs = append([]epochAlt{}, s.epochs...)
+	n.atLock = s.atLock
 	n.defers = append([]*ssa.Defer{}, s.defers...)
 	return n
 }
